@@ -11,6 +11,7 @@
   proved.
 -/
 import PCV.Proofs.Codec
+import PCV.Proofs.CodecExamples
 import PCV.Generated.SerSchemas
 
 namespace PCV.C12
@@ -110,11 +111,6 @@ reads in a deserializer, dropping a summand of `serialized_size`, or rebuilding 
 from `h` makes this `decide` fail — see the mutants below.) -/
 theorem generated_schemas_ok : ∀ s ∈ Generated.SerSchemas.all, s.2.SchemaOK = true := by decide
 
-/-- Validation coverage of the extracted impls: a field read with `Validate::No` is visited by
-`Valid::check` afterwards (or is a `usize`), and `check` only visits serialized fields. -/
-theorem generated_schemas_validate_ok :
-    ∀ s ∈ Generated.SerSchemas.all, s.2.ValidateOK = true := by decide
-
 /-- **Corollary: every hand-written impl of the crate** (`kzg10::{UniversalParams, Powers,
 VerifierKey}`, `sonic_pc::VerifierKey`, `marlin_pst13_pc::{UniversalParams, VerifierKey}` — whatever
 T1 found) round-trips, reports its length and refuses truncated input, given that the encodings of
@@ -134,69 +130,40 @@ theorem generated_roundtrip_validated {V : Type} [Inhabited V] (s : String × Sc
       (fun x => s.2.WF fd prep x ∧ s.2.checkAll chk x = true) :=
   Schema.goodV_of_schemaOK s.2 (generated_schemas_ok s hs) fc fd prep chk hfc
 
-/-! ### Non-vacuity: concrete instances, and mutants the side condition rejects -/
+/-! ### Non-vacuity: concrete instances, and mutants the side condition rejects
+(the fixed example schema `Ex.vkSchema` and its mutants are in `PCV/Proofs/CodecExamples.lean`, so
+that a legitimate change of the Rust structs does not disturb these examples) -/
 section Examples
-open Generated.SerSchemas
-
-/-- toy field codec: every field is two raw bytes -/
-def fc2 : String → Codec (List Nat) := fun _ => raw 2
-/-- toy preparation -/
-def prep2 : String → List Nat → List Nat := fun _ v => v.map (· + 100)
-/-- a `kzg10::VerifierKey` whose prepared fields are consistent -/
-def vk0 : Rec (List Nat) :=
-  [("g", [1, 2]), ("gamma_g", [3, 4]), ("h", [5, 6]), ("beta_h", [7, 8]),
-   ("prepared_h", [105, 106]), ("prepared_beta_h", [107, 108])]
+open Ex
 
 -- the hypotheses of `roundtrip_of_schema_agree` are satisfiable: schema, field codecs, record
-example : kzg10_VerifierKey.SchemaOK = true := by decide
-example : ∀ f ∈ kzg10_VerifierKey.written, Good (fc2 f) (fun v => v.length = 2) :=
+example : vkSchema.SchemaOK = true := by decide
+example : vkSchema.ValidateOK = true := by decide
+example : ∀ f ∈ vkSchema.written, Good (fc2 f) (fun v => v.length = 2) :=
   fun _ _ => raw_good 2
-example : kzg10_VerifierKey.WF (fun _ v => v.length = 2) prep2 vk0 := by
-  refine ⟨by decide, by decide, ?_⟩
-  intro src h1 h2
-  have h1' : src = "g" ∨ src = "gamma_g" ∨ src = "h" ∨ src = "beta_h" ∨ src = "prepared_h"
-      ∨ src = "prepared_beta_h" := by
-    simpa [Schema.fieldNames, kzg10_VerifierKey] using h1
-  rcases h1' with rfl | rfl | rfl | rfl | rfl | rfl
-  · exact absurd h2 (by decide)
-  · exact absurd h2 (by decide)
-  · decide
-  · decide
-  · exact absurd h2 (by decide)
-  · exact absurd h2 (by decide)
+example : vkSchema.WF (fun _ v => v.length = 2) prep2 vk0 := vk0_wf
 -- … and the conclusion evaluated on it
-example : (kzg10_VerifierKey.structCodec fc2 prep2).enc vk0 = [1, 2, 3, 4, 5, 6, 7, 8] := by decide
-example : (kzg10_VerifierKey.structCodec fc2 prep2).dec ([1, 2, 3, 4, 5, 6, 7, 8] ++ [9, 9])
+example : (vkSchema.structCodec fc2 prep2).enc vk0 = [1, 2, 3, 4, 5, 6, 7, 8] := by decide
+example : (vkSchema.structCodec fc2 prep2).dec ([1, 2, 3, 4, 5, 6, 7, 8] ++ [9, 9])
     = some (vk0, [9, 9]) := by decide
-example : (kzg10_VerifierKey.structCodec fc2 prep2).size vk0 = 8 := by decide
-example : (kzg10_VerifierKey.structCodec fc2 prep2).dec [1, 2, 3, 4, 5, 6, 7] = none := by decide
+example : (vkSchema.structCodec fc2 prep2).size vk0 = 8 := by decide
+example : (vkSchema.structCodec fc2 prep2).dec [1, 2, 3, 4, 5, 6, 7] = none := by decide
 
-/-- mutant 1: the deserializer reads `gamma_g` before `g` -/
-def vkSwapped : Schema :=
-  { kzg10_VerifierKey with
-    read := [⟨"gamma_g", "gamma_g", "E::G1Affine", false⟩, ⟨"g", "g", "E::G1Affine", false⟩,
-             ⟨"h", "h", "E::G2Affine", false⟩, ⟨"beta_h", "beta_h", "E::G2Affine", false⟩] }
+-- mutant 1: the deserializer reads `gamma_g` before `g`
 example : vkSwapped.SchemaOK = false := by decide
 example : (vkSwapped.structCodec fc2 prep2).dec ((vkSwapped.structCodec fc2 prep2).enc vk0)
     ≠ some (vk0, []) := by decide
-
-/-- mutant 2: `serialized_size` forgets `beta_h` -/
-def vkShortSize : Schema := { kzg10_VerifierKey with sized := ["g", "gamma_g", "h"] }
+-- mutant 2: `serialized_size` forgets `beta_h`
 example : vkShortSize.SchemaOK = false := by decide
 example : ((vkShortSize.structCodec fc2 prep2).enc vk0).length
     ≠ (vkShortSize.structCodec fc2 prep2).size vk0 := by decide
-
-/-- mutant 3: `prepared_beta_h` is rebuilt from `h` -/
-def vkWrongPrep : Schema :=
-  { kzg10_VerifierKey with prepared := [("prepared_h", "h"), ("prepared_beta_h", "h")] }
+-- mutant 3: `prepared_beta_h` is rebuilt from `h`
 example : vkWrongPrep.SchemaOK = false := by decide
 example : (vkWrongPrep.structCodec fc2 prep2).dec ((vkWrongPrep.structCodec fc2 prep2).enc vk0)
     ≠ some (vk0, []) := by decide
-
-/-- mutant 4: a field is not written at all -/
-def vkDropped : Schema :=
-  { kzg10_VerifierKey with written := ["g", "gamma_g", "h"], sized := ["g", "gamma_g", "h"] }
+-- mutant 4: a field is not written at all; mutant 5: a checked field is no longer checked
 example : vkDropped.SchemaOK = false := by decide
+example : vkUnchecked.SchemaOK = true ∧ vkUnchecked.ValidateOK = false := by decide
 
 -- the combinators on concrete values: `Option<Vec<(usize, u64)>>` as in the Sonic verifier key
 example : (option (vec (pair usize usize))).enc (some [(2, 258)])
